@@ -1,5 +1,5 @@
 // ===== spec/query_wf.rs : representation invariant of the resolved query arena (DESIGN appendix B.1) =====
-pub open spec fn sub(q: &Query, i: int) -> Seq<SelectionId> {
+pub open spec fn subsel(q: &Query, i: int) -> Seq<SelectionId> {
     match q.selections@[i] {
         Selection::Field(f) => f.selection_set@,
         Selection::InlineFragment(f) => f.selection_set@,
@@ -13,10 +13,42 @@ pub open spec fn ids_in_range(q: &Query, ids: Seq<SelectionId>) -> bool {
 pub open spec fn query_wf(q: &Query) -> bool {
     &&& q.selections@.len() <= 0xffff_ffff
     &&& q.fragments@.len() <= 0xffff_ffff
-    &&& forall|i: int, k: int| 0 <= i < q.selections@.len() && 0 <= k < sub(q, i).len()
-            ==> i < ((#[trigger] sub(q, i)[k]).0 as int) < q.selections@.len()
+    &&& forall|i: int, k: int| 0 <= i < q.selections@.len() && 0 <= k < subsel(q, i).len()
+            ==> i < ((#[trigger] subsel(q, i)[k]).0 as int) < q.selections@.len()
     &&& forall|f: int| 0 <= f < q.fragments@.len() ==> ids_in_range(q, (#[trigger] q.fragments@[f]).selection_set@)
     &&& forall|o: int| 0 <= o < q.operations@.len() ==> ids_in_range(q, (#[trigger] q.operations@[o]).selection_set@)
     &&& forall|i: int| 0 <= i < q.selections@.len() ==>
             ((#[trigger] q.selections@[i]) matches Selection::FragmentSpread(g) ==> (g.0 as int) < q.fragments@.len())
+}
+
+// ---- C12.3: "the subtree of selection i contains a spread of fragment g" (the fragment's own tree only: spreads are leaves)
+pub open spec fn spreads(q: &Query, i: int, g: ResolvedFragmentId) -> bool
+    decreases q.selections@.len() - i, subsel(q, i).len() + 1
+{
+    if !(0 <= i < q.selections@.len()) { false }
+    else {
+        match q.selections@[i] {
+            Selection::FragmentSpread(id) => id == g,
+            _ => spreads_any(q, i, g, subsel(q, i).len() as int),
+        }
+    }
+}
+pub open spec fn spreads_any(q: &Query, i: int, g: ResolvedFragmentId, n: int) -> bool
+    decreases q.selections@.len() - i, n
+{
+    if !(0 <= i < q.selections@.len()) || n <= 0 || n > subsel(q, i).len() { false }
+    else {
+        let c = subsel(q, i)[n - 1].0 as int;
+        spreads_any(q, i, g, n - 1) || (i < c && c < q.selections@.len() && spreads(q, c, g))
+    }
+}
+// over an explicit id list (a fragment's or an operation's top-level selection set)
+pub open spec fn spreads_ids(q: &Query, ids: Seq<SelectionId>, g: ResolvedFragmentId, n: int) -> bool
+    decreases n
+{
+    if n <= 0 || n > ids.len() { false } else { spreads_ids(q, ids, g, n - 1) || spreads(q, ids[n - 1].0 as int, g) }
+}
+// a named fragment is recursive iff its own selection tree spreads it again
+pub open spec fn frag_recursive(q: &Query, g: ResolvedFragmentId) -> bool {
+    spreads_ids(q, q.fragments@[g.0 as int].selection_set@, g, q.fragments@[g.0 as int].selection_set@.len() as int)
 }
